@@ -7,6 +7,7 @@ import os, sys, time, json, math
 import vlib
 import scenarios as SC
 import c14_pipeline as CP
+import c14_tissue as CT
 
 PID = "C14"
 NAMESPACE = "Simu.C14"
@@ -14,7 +15,7 @@ THEOREMS = ["comp_equivariant", "pipeline_equivariant", "iterate_equivariant", "
             "kernel_translate", "forces_translate", "node00_translate", "node01_translate", "single10_translate",
             "single11_translate", "pair10_translate", "pair11_translate", "edge_length_translate", "new_node_translate",
             "volume_translate", "area_translate", "normal_translate"]
-GEN = ["Kernel", "Integrator", "RemeshConsts", "Forces", "Geometry", "CellCycle"]
+GEN = ["Kernel", "Integrator", "RemeshConsts", "Forces", "Geometry", "CellCycle", "NodeNormals", "BroadPhase", "ContactRule"]
 SIZE = 1e-5
 STRICT_ITERS = 80     # connectivity must be identical up to this iteration; later flips of threshold decisions are rounding chaos
 
@@ -122,9 +123,19 @@ def run(ctx):
             V.fail_tie("correspondence", "assembled iteration: %s" % (f.get("what", f) if isinstance(f, dict) else f))
     for d in pipe["disagreements"][:3]:
         V.fail_tie("correspondence", "assembled single-cell iteration differs from the real solver: %s" % (json.dumps(d)[:400]))
+    # the assembled iteration of a TISSUE of interacting cells: theorems (Properties/C14Tissue.lean) + bit-exact correspondence
+    proofT = CT.prove_tissue()
+    for f in proofT["failures"]:
+        V.fail_tie("proof", "%s: %s" % (f["theorem"], f["reason"]), errors=proofT["errors"][:5])
+    if tier == "thorough" and proofT["ok"]:
+        ok, log = vlib.leanchecker("SimuVerif.Properties.C14Tissue")
+        if not ok:
+            V.fail_tie("proof", "leanchecker rejected SimuVerif.Properties.C14Tissue", log=log)
+    tissue = {}
+    CT.run_tissue(V, "thorough" if (tier == "thorough" or not proofT["ok"]) else "quick", seed, tissue)   # widens when a proof broke
     r = vlib.Rng(seed)
     exe, rebuilt = SC.build("asan")
-    wide = tier == "thorough" or not (proof["ok"] and proofP["ok"])
+    wide = tier == "thorough" or not (proof["ok"] and proofP["ok"] and proofT["ok"])
     kinds = ["single", "separated", "adhering", "overlapping-mixed"]
     evaluations = 0
     distinct = set()
@@ -171,14 +182,17 @@ def run(ctx):
                 samples.append({"tissue": kind, "translation": t, "iterations": iters, "cells": ref[0]["ncells"] if ref else None})
     rcode, nviol = V.finish()
     cov = {
-        "obligations": proof["obligations"] + proofP["obligations"], "discharged": proof["discharged"] + proofP["discharged"],
+        "obligations": proof["obligations"] + proofP["obligations"] + proofT["obligations"],
+        "discharged": proof["discharged"] + proofP["discharged"] + proofT["discharged"],
         "checker_cmd": "lake build SimuVerif.Properties.C14 SimuVerif.Audit.C14 (+ leanchecker in the thorough tier)",
         "trusted_base": vlib.TRUSTED_COMMON + [
-            "partial: the stages are assembled into one executable model of solver::run_iteration (bit-identical to the real solver, cellRun_translate proved) for a single free cell whose mesh stays inside the refinement band; for interacting tissues only the stage theorems and the generic composition are proved; the broad phase (grid re-anchored by the translation) is covered by C06's completeness theorem, not by an equivariance theorem",
+            "the stages are assembled into one executable model of solver::run_iteration for a single free cell AND for tissues of interacting epithelial cells (contact search on the re-anchored grid, coupling pass, polarisation, node normals, forces, integrator), bit-identical to the real solver (1 thread) while no cell divides / is removed and all edges stay in the refinement band; tissueRun_translate / tissueRun_observables / domain_translate proved for all such tissues with closed meshes (hypotheses TissueSetup, Wf evaluated on every instance); outside that domain (remeshing, division, removal) only the stage theorems + the two-run oracle; the loops and bindings of Model/Tissue.lean are tied to the code by the differential run (single-thread search order), its arithmetic is Gen.*",
             "rounding is run-time only: allowed deviation per node = size*(1e-8 + iters*(20 eps (r+10) + 5 eps r^3)), r = offset/size <= 1e3 (the r^3 term is the cancellation of the volume determinants far from the origin)"],
-        "theorems": dict(list(proof["axioms"].items()) + list(proofP["axioms"].items())), "proof_failures": proof["failures"] + proofP["failures"],
+        "theorems": dict(list(proof["axioms"].items()) + list(proofP["axioms"].items()) + list(proofT["axioms"].items())),
+        "proof_failures": proof["failures"] + proofP["failures"] + proofT["failures"],
+        "assembled_tissue_iteration": tissue,
         "assembled_single_cell_iteration": pipe.get("stats"), "translator": {k: v.get("sha256", v.get("error")) for k, v in gen.items()},
-        "evaluations": evaluations, "distinct_nontrivial": len(distinct),
+        "evaluations": evaluations + tissue.get("oracle_runs", 0) + len(tissue.get("scenarios", [])), "distinct_nontrivial": len(distinct),
         "rule": "pairs of real solver runs (generated tissues: single cell, separated, adhering, overlapping cells of mixed types; 40-300 iterations, deterministic parameters) that differ by a translation of the input file (offset/size 1e-2 .. 1e3, random directions, one straddling the origin); distinct = distinct (tissue, offset ratio, swap flag)",
         "worst_deviation_over_size_by_ratio": worst_by_ratio, "late_connectivity_divergences_after_iteration_%d" % STRICT_ITERS: late_divergences, "repo_objects_rebuilt": rebuilt, "samples": samples,
     }
@@ -187,6 +201,9 @@ def run(ctx):
 
 
 def replay(ctx):
+    inp = ((ctx["replay"] or {}).get("failing_input") or {}).get("input") or {}
+    if isinstance(inp, dict) and inp.get("part") in ("oracle", "correspondence"):
+        return CT.replay(ctx)
     print(json.dumps(ctx["replay"], indent=1)[:3000])
     print("re-run: VERIF_SEED=<seed of the replay> python3 tools/check.py C14")
     return 1
